@@ -47,7 +47,7 @@ pub fn build_named_archive(names: &[Vec<u8>], order: &[usize]) -> Result<Vec<u8>
     let mut w = ArchiveWriter::from_config(Vec::new(), cfg).map_err(|e| format!("{e:?}"))?;
     for i in order {
         let name = String::from_utf8(names[*i].clone()).map_err(|_| "utf8")?;
-        let content = member_content(*i);
+        let content = member_content_for(&names[*i], *i);
         w.add_file(&name, content.len() as u64, content.as_slice()).map_err(|e| format!("{e:?}"))?;
     }
     w.finalize().map_err(|e| format!("{e:?}"))?;
@@ -56,6 +56,11 @@ pub fn build_named_archive(names: &[Vec<u8>], order: &[usize]) -> Result<Vec<u8>
 
 pub fn member_content(i: usize) -> Vec<u8> {
     vec![i as u8, 1, 2, 3]
+}
+
+/// members whose name length is a multiple of 3 are EMPTY files (model: Run.c16_content_for)
+pub fn member_content_for(name: &[u8], i: usize) -> Vec<u8> {
+    if name.len() % 3 == 0 { vec![] } else { member_content(i) }
 }
 
 /// independent normalisation (Unix Path::components with the extractor's filter): None = has ".."
@@ -216,7 +221,7 @@ pub fn oracle_c16(names: &[Vec<u8>], form: u64, listed: usize, r: &ExtractRun) -
         }
         let rel: Vec<u8> = ni.join(&b'/');
         let got = r.files.iter().find(|f| f.0 == rel).map(|f| &f.1);
-        if got != Some(&member_content(i)) {
+        if got != Some(&member_content_for(&names[i], i)) {
             let msg = format!("benign member {:?} is not extracted with its content (got {:?})", String::from_utf8_lossy(&names[i]), got.map(|g| g.len()));
             return (Err(msg), if unrep { Some("K16-unrepresentable-member-aborts") } else { None });
         }
